@@ -220,7 +220,12 @@ func (s *SamplerFactory) createScopedSampler(c any, keyPrefix string, scope stri
 	s.Logger.Debug().WithField("dataset", keyPrefix).Logf("created implementation for sampler type %T", c)
 	// Update peer counts after creating a sampler
 	s.updatePeerCounts()
-	s.Metrics.Gauge("unique_dynsampler_count", float64(len(s.sharedDynsamplers)))
+	// sharedDynsamplers is written under s.mutex by every worker that creates a
+	// sampler and by ClearDynsamplers on reload
+	s.mutex.Lock()
+	uniqueDynsamplers := len(s.sharedDynsamplers)
+	s.mutex.Unlock()
+	s.Metrics.Gauge("unique_dynsampler_count", float64(uniqueDynsamplers))
 
 	return sampler
 }
